@@ -338,7 +338,7 @@ def make_spec(rng, system: str, controller: str, family: str, le: bool, sup: boo
     return {"system": system, "controller": controller, "family": family, "le": int(le), "sup": int(sup),
             "steps": steps, "time": hexf(ttime), "training": [[hexf(v) for v in r] for r in training],
             "xs": [], "models": ["stable", "rot", "same"] if quick else ["stable", "rot", "grow", "same"],
-            "tlimit": 0.4 if quick else 1.0}
+            "tlimit": 0.1 if quick else 1.0}
 
 
 def make_pool(rng, ctx: Ctx, quick: bool) -> None:
@@ -574,30 +574,29 @@ def flush(ck: Check, pending) -> None:
 
 # ------------------------------------------------------------------------------------------ streams
 def instance_plan(ck: Check):
-    """(system, controller, family, le, sup) combinations of this run."""
+    """(system, controller, family, le, sup) combinations of this run, systems interleaved."""
     rng, quick = ck.rng, ck.quick
-    plan = []
-    systems = ["stuart_landau", "lorenz", "3oscillators"]
-    for sysname in systems:
+    per_system = []
+    fams = ["bundled", "farout", "graded", "single", "zero"]
+    for sysname in ["stuart_landau", "lorenz", "3oscillators"]:
         ctrls = list(controllers_for(base_systems()[sysname], not quick))
-        fams = ["bundled", "farout", "graded", "single", "zero"]
-        if quick:
-            combos = [(c, f) for c in ctrls for f in fams]
-            rng.shuffle(combos)
-            # every controller and every family at least once, then stop
-            chosen, seen_c, seen_f = [], set(), set()
-            for c, f in combos:
-                if c not in seen_c or f not in seen_f:
-                    chosen.append((c, f))
-                    seen_c.add(c)
-                    seen_f.add(f)
-            combos = chosen
+        rng.shuffle(ctrls)
+        if quick:     # every controller once, families cycling
+            f = fams[:]
+            rng.shuffle(f)
+            combos = [(c, f[i % len(f)]) for i, c in enumerate(ctrls)]
         else:
             combos = [(c, f) for c in ctrls for f in fams]
+            rng.shuffle(combos)
+        lst = []
         for c, f in combos:
             if f == "graded" and c.startswith("ann"):   # bounded controllers cannot fail case-dependently
                 f = "bundled"
-            plan.append((sysname, c, f, rng.random() < 0.5, rng.random() < 0.85))
+            lst.append((sysname, c, f, rng.random() < 0.5, rng.random() < 0.85))
+        per_system.append(lst)
+    plan = []
+    for tup in itertools.zip_longest(*per_system):
+        plan += [t for t in tup if t is not None]
     return plan
 
 
@@ -638,7 +637,7 @@ def streams(ck: Check) -> None:
 
     # (4)+(3) boundary families and structured random histories on every planned instance
     plan = instance_plan(ck)
-    per_inst = max(2, (8 if quick else 24))
+    per_inst = 6 if quick else 24
     hid = 0
     for idx, (sysname, cname, fam, le, sup) in enumerate(plan):
         if time.time() - t_start > budget:
